@@ -207,7 +207,7 @@ def c25(c):
     nj = len(jobs)
     wcfgs = ['ascoded_flip.cfg', 'ascoded_removal.cfg', 'ascoded_epoch.cfg']
     jobs += [_witness(c, 'SharedPoll', 'SharedPoll', x) for x in wcfgs]
-    n = 160 if quick else 4000
+    n = 160 if quick else 1500
     sims = (('sim_v.cfg', True, n), ('sim_flip.cfg', True, n // 4), ('sim_vl.cfg', False, n // 2))
     jobs += [_sim(c, 'SharedPoll', 'SharedPollSim', x, k, 50) for x, _, k in sims]
     out = _par(jobs)
@@ -220,7 +220,7 @@ def c25(c):
         c.cov['samples'] += res['samples'][:1]
     # 4. real timers: seeded free-running schedules with the refresh timer on (25 ms); same frame monitors plus
     #    "every tracking connection holds the backend's newest payload within 6 s after the last operation"
-    res = c.harness(binp, 'spfree', {'n': 24 if quick else 240, 'ops': 60}, timeout=1800)
+    res = c.harness(binp, 'spfree', {'n': 24 if quick else 96, 'ops': 60}, timeout=1800)
     _absorb_sp(c, res, total)
     c.cov['traces_validated_against_impl'] = total['completed']
     c.cov['evaluations'] = total['executed']
@@ -243,8 +243,8 @@ _n14 = ('Bounds: exhaustive (reference design): stream paths <=3 publications (4
 _n25 = ('Bounds: exhaustive (reference design) 2 connections, 1 key (2 versionless thorough), <=1-2 backend changes, 1 publisher restart (epoch flip), 4-5 client / '
         'publish / revoke operations, every interleaving of worker, publisher, revoker, client commands incl. the two phases of the keyed write; liveness '
         '(<>[] every tracking connection has the newest payload) under weak fairness of worker / publisher / revoker / track completion with the refresh timer '
-        'on and NO state constraint: 1 connection, 1 key, 1-2 changes, 3 operations (versioned incl. one flip, and versionless). Replay: 160+40+80 (quick) '
-        'simulated behaviours (2 connections, 2 keys, <=5 changes, 12 operations) on JSON / Protobuf, 3 witnesses, 24 free-running schedules of 60 operations '
+        'on and NO state constraint: 1 connection, 1 key, 1-2 changes, 3 operations (versioned incl. one flip, and versionless). Replay: 160+40+80 (quick) / 1500+375+750 (thorough) '
+        'simulated behaviours (2 connections, 2 keys, <=5 changes, 12 operations) on JSON / Protobuf, 3 witnesses, 24 (96 thorough) free-running schedules of 60 operations '
         'with the real 25 ms refresh timer. Replay granularity: a thread runs from gate to gate (gates: OnSharedPoll entry / return, the trace-log call between '
         'phase 1 and the locked enqueue of keyedWritePublication / before the removal write, start / return of SharedPollPublish and SharedPollRevokeKeys); '
         'track steps 1-4 and 5-7 are one step (no public call between them); the order in which a broadcast visits its subscribers is Go map order, so '
